@@ -205,7 +205,8 @@ func vfH_c17_stream() {
 	}
 }
 
-var c17docs = []string{`[{"a":[1,2]},3]`, `{"k":[1,{"x":null}],"z":true}`, ` [ ] `, `7`, `[[[[[1]]]]]`}
+var c17docs = []string{`[{"a":[1,2]},3]`, `{"k":[1,{"x":null}],"z":true}`, ` [ ] `, `7`, `[[[[[1]]]]]`,
+	`["say \"hi\"",{"k\n":"\u00e9x"}]`, "[\"\xc3\xa9\",{},2]"}
 
 // H17-reset: a tokenizer that was abandoned mid-document or failed (free bytes b1), then Reset to a second (valid)
 // document, yields exactly that document's reference token stream - with a pool that may hand back ANY previously
